@@ -365,15 +365,33 @@ def merge_cases(draw, tier):
     if not any(Xb):
         Xb[0] = [b_alpha[0]]
     test = draw(st.lists(doc(alpha + alpha[:1]), min_size=1, max_size=4))
-    return {"token_type": tt, "Xa": Xa, "Xb": Xb, "test": test}
+    # a second right-hand operand: the left model takes part in more than one sum
+    c_alpha = draw(st.lists(st.sampled_from(alpha), min_size=1, max_size=5, unique=True))
+    Xc = draw(st.lists(doc(c_alpha), min_size=1, max_size=3))
+    if not any(Xc):
+        Xc[0] = [c_alpha[0]]
+    return {"token_type": tt, "Xa": Xa, "Xb": Xb, "Xc": Xc, "test": test}
 
 
 def check_merge(case):
+    r = _check_merge_once(case, case["Xb"], first=None)
+    if r.failures or "Xc" not in case:
+        return r
+    # the same left model in a second sum (history: a + b happened before a + c)
+    r2 = _check_merge_once(case, case["Xc"], first=case["Xb"])
+    for f in r2.failures:
+        f.site += "[second sum with the same left operand]"
+    r.failures.extend(r2.failures)
+    r.nontrivial = r.nontrivial or r2.nontrivial
+    return r
+
+
+def _check_merge_once(case, Xb, first):
     L = lib()
     np = L["np"]
     r = Result()
     site = "NgramVectorizer.__add__"
-    Xa, Xb, test = case["Xa"], case["Xb"], case["test"]
+    Xa, test = case["Xa"], case["test"]
     va = {t for d in Xa for t in d}
     vb = {t for d in Xb for t in d}
     r.nontrivial = bool(va & vb) and va != vb
@@ -385,7 +403,14 @@ def check_merge(case):
     if "exc" in (s1, s2, s3):
         r.fail("exception", site + "[fit]", "fitting the operands failed")
         return r
+    if first is not None:
+        other = L["Ngram"]()
+        call(other.fit, first)
+        call(lambda: a + other)
+        snapshot = (dict(a.column_label_dictionary_), dict(a.column_index_dictionary_), a._train_matrix.shape)
     s, m = call(lambda: a + b)
+    if first is not None and snapshot != (dict(a.column_label_dictionary_), dict(a.column_index_dictionary_), a._train_matrix.shape):
+        r.fail("operand-mutated", site, "the left operand's dictionaries changed during the sum")
     if s == "exc":
         r.fail(exc_kind(m), site, exc_detail(m))
         return r
